@@ -47,7 +47,7 @@ import (
 
 var longType = map[string]string{
 	"CDS": v3.ClusterType, "EDS": v3.EndpointType, "LDS": v3.ListenerType, "RDS": v3.RouteType,
-	"WDS": v3.AddressType, "WADS": v3.WorkloadAuthorizationType,
+	"WDS": v3.AddressType, "WADS": v3.WorkloadAuthorizationType, "ECDS": v3.ExtensionConfigurationType,
 }
 
 func shortType(url string) string {
@@ -67,6 +67,7 @@ type resEntry struct {
 	Text   string
 	Eds    string   // clusters: the EDS resource name this cluster needs ("" = not an EDS cluster)
 	Routes []string // listeners: the RDS route names referenced
+	Ecds   []string // listeners: the ECDS extension config names referenced (c03.go ecdsOfListener)
 	Alias  []string // WDS: the aliases the server attached (addresses of the workload / service)
 }
 
@@ -135,6 +136,8 @@ type stream struct {
 	reconnect   bool
 	lastType    string // type of the last response seen
 	log         []string
+	zombie      bool  // the client has given this stream up without closing it (the server has not noticed): what the server sends on it vanishes
+	err         error // what Stream / StreamDeltas returned (valid once done is closed)
 }
 
 func newEnvoy(label string, delta bool, nodeName string) *envoy {
@@ -301,6 +304,9 @@ func (s sotwStream) Send(resp *discovery.DiscoveryResponse) error {
 	if s.dead {
 		return errClosed
 	}
+	if s.zombie {
+		return nil
+	}
 	s.touch()
 	apply, stop := s.cutCheck()
 	if apply {
@@ -374,6 +380,7 @@ func (e *envoy) applySotw(s *stream, resp *discovery.DiscoveryResponse) {
 		s.edsDue = false
 	case "LDS":
 		e.resubscribeSotw(s, "RDS", rdsNamesOfHeld(got), false)
+		e.resubscribeSotw(s, "ECDS", ecdsNamesOfHeld(got), false)
 	}
 }
 
@@ -414,6 +421,9 @@ func (s deltaStream) Send(resp *discovery.DeltaDiscoveryResponse) error {
 	defer e.mu.Unlock()
 	if s.dead {
 		return errClosed
+	}
+	if s.zombie {
+		return nil
 	}
 	s.touch()
 	apply, stop := s.cutCheck()
@@ -479,6 +489,7 @@ func (e *envoy) applyDelta(s *stream, resp *discovery.DeltaDiscoveryResponse) {
 		s.edsDue = false
 	case "LDS":
 		e.resubscribeDelta(s, "RDS", rdsNamesOfHeld(e.held["LDS"]))
+		e.resubscribeDelta(s, "ECDS", ecdsNamesOfHeld(e.held["LDS"]))
 	}
 	// a named resource the server removed is still wanted by the client; nothing to do
 }
@@ -537,6 +548,7 @@ func canonRes(a *anypb.Any) (string, resEntry) {
 	case *listener.Listener:
 		name = r.Name
 		x.Routes = routesOfListener(r)
+		x.Ecds = ecdsOfListener(r)
 	case interface{ GetClusterName() string }:
 		name = r.GetClusterName()
 	case interface{ GetName() string }:
@@ -599,11 +611,13 @@ func dedupSorted(xs []string) []string {
 
 type connectOpts struct {
 	order     []string // order of the first requests (default CDS, LDS and, on reconnect, EDS, RDS)
-	keepNonce bool     // SotW reconnect: present the old response_nonce too (older Envoys; a restarted istiod sees this as well)
+	keepNonce bool     // reconnect: present the response_nonce retained from the previous stream in the first request per type (SotW and delta)
 	cutAfter  int
 	cutDrop   bool
 	cutErr    bool
 	hold      bool // do not send the first requests yet (the caller does via kick)
+	// the caller expects the server to refuse the stream (not ready): the returned error is not a client error
+	expectRefusal bool
 }
 
 // connect opens a new stream to the server. A client that holds state presents it.
@@ -638,9 +652,12 @@ func (e *envoy) connect(st *site, o connectOpts) *stream {
 		} else {
 			err = srv.Stream(sotwStream{s})
 		}
+		e.mu.Lock()
+		s.err = err
+		e.mu.Unlock()
 		if err != nil && !strings.Contains(err.Error(), "closed by the client") {
 			e.mu.Lock()
-			if !s.dead {
+			if !s.dead && !s.zombie && !o.expectRefusal {
 				e.errs = append(e.errs, err.Error())
 			}
 			e.mu.Unlock()
@@ -683,7 +700,11 @@ func (e *envoy) firstRequests(s *stream, o connectOpts) {
 					initial[n] = x.Ver
 				}
 			}
-			s.sendDelta(typ, sub, nil, "", initial)
+			nonce := ""
+			if o.keepNonce {
+				nonce = e.nonce[typ]
+			}
+			s.sendDelta(typ, sub, nil, nonce, initial)
 		} else {
 			nonce := ""
 			if o.keepNonce {
@@ -711,6 +732,34 @@ func (e *envoy) disconnect() {
 		case <-s.done:
 		case <-time.After(5 * time.Second):
 		}
+	}
+}
+
+// abandon gives the live stream up WITHOUT closing it: the network died, the server has not noticed.
+// Whatever the server still sends on it vanishes; the stream object is returned so that the caller
+// can let the server notice later (closeStream).
+func (e *envoy) abandon() *stream {
+	e.mu.Lock()
+	defer e.mu.Unlock()
+	s := e.st
+	if s != nil && !s.dead {
+		s.zombie = true
+		s.logf("ABANDONED (not closed)")
+	}
+	return s
+}
+
+// closeStream lets the server notice that an abandoned stream is gone and waits for its handler to return.
+func (e *envoy) closeStream(s *stream) {
+	if s == nil {
+		return
+	}
+	e.mu.Lock()
+	s.kill()
+	e.mu.Unlock()
+	select {
+	case <-s.done:
+	case <-time.After(5 * time.Second):
 	}
 }
 
